@@ -378,7 +378,7 @@ class Ctx:
             self.violations.append((path, found_input, what))
         return True
 
-    def finish(self, level="proof", level_keys=None):
+    def finish(self, level="proof", level_keys=None, write_evidence=True):
         cov = self.coverage
         cov["distinct_nontrivial"] = len(self.distinct)
         cov["obligations"] = self.obligations
@@ -405,9 +405,10 @@ class Ctx:
             "violations": len(self.violations),
             "known_findings_hit": sorted(self.known_hits),
         }
-        os.makedirs(os.path.join(VERIF, "evidence"), exist_ok=True)
-        with open(os.path.join(VERIF, "evidence", self.prop + ".json"), "w") as f:
-            json.dump(ev, f, indent=1, default=repr)
+        if write_evidence:
+            os.makedirs(os.path.join(VERIF, "evidence"), exist_ok=True)
+            with open(os.path.join(VERIF, "evidence", self.prop + ".json"), "w") as f:
+                json.dump(ev, f, indent=1, default=repr)
         for key, text in sorted(self.known_hits.items()):
             print("KNOWN-FINDING: property=%s key=%s %s" % (self.prop, key, text))
         for path, found, what in self.violations:
@@ -447,6 +448,21 @@ def main(prop, run):
     args = ap.parse_args(sys.argv[2:] if len(sys.argv) > 1 and sys.argv[1].startswith("C") else None)
     tier = args.tier if args.tier in ("quick", "thorough") else "quick"
     seed = int(os.environ.get("VERIF_SEED", "0") or 0)
+    if args.replay:
+        # show the recorded case; a property module may define replay(ctx, data) to re-run it
+        data = json.load(open(args.replay))
+        print(json.dumps(data, indent=1, default=repr)[:20000])
+        mod = sys.modules.get("__main__")
+        if hasattr(mod, "replay"):
+            ctx = Ctx(prop, tier, seed, replay=args.replay)
+            try:
+                mod.replay(ctx, data)
+            except Exception:
+                ctx.fail("replay raised", {"traceback": traceback.format_exc()}, found_input=False)
+            sys.exit(ctx.finish(write_evidence=False))
+        print("VIOLATION property=%s replay=%s%s" % (
+            prop, args.replay, "" if data.get("failing_input_found", True) else " no-failing-input-found"))
+        sys.exit(1)
     ctx = Ctx(prop, tier, seed, replay=args.replay)
     try:
         run(ctx)
